@@ -18,18 +18,21 @@ namespace Comet.Flat
 
 variable {V S : Type}
 
-/-- Headline (full strength): for every history with distinct add ids, every query,
-    every `k ∈ ℤ`, threshold and id restriction, the single-query search returns an
-    exact top-k of the live, eligible, within-threshold vectors, scored by the metric. -/
+/-- Headline (full strength): for EVERY history of adds, removals and flushes (no
+    freshness hypothesis: the model's `add` purges a tombstone before re-adding its
+    id, as comet's does), every query, every `k ∈ ℤ`, threshold and id restriction,
+    the single-query search returns an exact top-k of the live, eligible,
+    within-threshold vectors, scored by the metric.  (With distinct add ids — C01's
+    quantifier — `live` holds each id at most once.) -/
 theorem flat_search_exact (m : Metric V S) (ord : m.sc.Ordered) (dim : Nat)
-    (ops : List (Op V)) (hfresh : FreshAdds ops)
+    (ops : List (Op V))
     (q q' : V) (k : Int) (thr : S) (F : List Id)
     (hq : m.dimOf q = dim) (hpre : m.pre q = some q') :
     ∃ res, searchSingle m (run m (init dim) ops) q k thr F = .ok res ∧
       IsTopK m.sc.le k (cands m (live m dim ops) q' thr F) res := by
   have hd : (run m (init dim) ops).dim = dim := by rw [run_dim]; rfl
   refine ⟨_, searchSingle_eq m _ q q' k thr F (by rw [hd]; exact hq) hpre, ?_⟩
-  rw [scan_eq_cands, eff_run_init m dim ops hfresh]
+  rw [scan_eq_cands, eff_run_init m dim ops]
   exact selectK_isTopK m.sc.le ord.total ord.trans k _
 
 /-- Any two correct answers carry the same score list (the property's notion of
@@ -44,7 +47,7 @@ theorem flat_answers_same_scores (m : Metric V S) (ord : m.sc.Ordered)
 /-- Every hit is a live stored vector, eligible, within threshold, and its score is
     the metric distance between the preprocessed query and that stored vector. -/
 theorem flat_score_is_distance (m : Metric V S) (dim : Nat)
-    (ops : List (Op V)) (hfresh : FreshAdds ops)
+    (ops : List (Op V))
     (q q' : V) (k : Int) (thr : S) (F : List Id)
     (hq : m.dimOf q = dim) (hpre : m.pre q = some q')
     (res : List (Hit S))
@@ -59,7 +62,7 @@ theorem flat_score_is_distance (m : Metric V S) (dim : Nat)
   have hr' : r ∈ scan m (run m (init dim) ops) q' thr F := by
     have := List.mem_of_mem_take hr
     exact List.mem_mergeSort.1 this
-  rw [scan_eq_cands, eff_run_init m dim ops hfresh] at hr'
+  rw [scan_eq_cands, eff_run_init m dim ops] at hr'
   simp only [cands, List.mem_filterMap] at hr'
   obtain ⟨p, hp, hpr⟩ := hr'
   split at hpr
@@ -76,13 +79,13 @@ theorem flat_score_is_distance (m : Metric V S) (dim : Nat)
     ids of hits are ids of the *specification's* live list, which forgets an id at
     the moment of its successful removal. -/
 theorem flat_removed_never_returned (m : Metric V S) (dim : Nat)
-    (ops : List (Op V)) (hfresh : FreshAdds ops)
+    (ops : List (Op V))
     (q q' : V) (k : Int) (thr : S) (F : List Id)
     (hq : m.dimOf q = dim) (hpre : m.pre q = some q') (res : List (Hit S))
     (hres : searchSingle m (run m (init dim) ops) q k thr F = .ok res) :
     ∀ r ∈ res, r.id ∈ (live m dim ops).map (·.1) := by
   intro r hr
-  obtain ⟨v, hv, _⟩ := flat_score_is_distance m dim ops hfresh q q' k thr F hq hpre res hres r hr
+  obtain ⟨v, hv, _⟩ := flat_score_is_distance m dim ops q q' k thr F hq hpre res hres r hr
   exact List.mem_map.2 ⟨(r.id, v), hv, rfl⟩
 
 /-- … and the specification's live list really drops a removed id for good
@@ -123,14 +126,22 @@ theorem live_remove_drops (m : Metric V S) (dim : Nat) (ops rest : List (Op V)) 
       exact ⟨p, hp, he⟩
     | flush => exact h0
 
+/-- Re-adding a removed id (outside C01's quantifier, inside C06's): the new vector,
+    and only the new vector, is live afterwards, whether or not a flush happened. -/
+theorem live_readd (m : Metric V S) (dim : Nat) (ops : List (Op V)) (id : Id) (v v' : V)
+    (hd : m.dimOf v = dim) (hp : m.pre v = some v') :
+    live m dim (ops ++ [.remove id, .add id v]) =
+      (live m dim ops).filter (fun p => p.1 != id) ++ [(id, v')] := by
+  simp [live, List.foldl_append, specStep, hd, hp]
+
 /-- `k ≤ 0` returns every eligible live vector. -/
 theorem flat_k_nonpos_returns_all (m : Metric V S) (ord : m.sc.Ordered) (dim : Nat)
-    (ops : List (Op V)) (hfresh : FreshAdds ops)
+    (ops : List (Op V))
     (q q' : V) (k : Int) (hk : k ≤ 0) (thr : S) (F : List Id)
     (hq : m.dimOf q = dim) (hpre : m.pre q = some q') :
     ∃ res, searchSingle m (run m (init dim) ops) q k thr F = .ok res ∧
       res.Perm (cands m (live m dim ops) q' thr F) := by
-  obtain ⟨res, h1, h2⟩ := flat_search_exact m ord dim ops hfresh q q' k thr F hq hpre
+  obtain ⟨res, h1, h2⟩ := flat_search_exact m ord dim ops q q' k thr F hq hpre
   refine ⟨res, h1, ?_⟩
   obtain ⟨rest, hp, _⟩ := h2.split
   have hl := h2.len
@@ -175,7 +186,7 @@ theorem flat_flush_noop_on_search (m : Metric V S) (s : State V)
       rw [searchSingle_eq m _ q q' k thr F (by rw [hd]; exact hq) hpre,
           searchSingle_eq m s q q' k thr F hq hpre, scan_eq_cands, scan_eq_cands]
       have : eff (step m s .flush).1 = eff s := by
-        have := eff_step m s .flush (by intro _ _ h; cases h)
+        have := eff_step m s .flush
         simpa [specStep] using this
       rw [this]
   · simp [searchSingle, hd, hq]
@@ -226,8 +237,7 @@ example : live toy 1 toyOps = [(1, 10), (3, 30), (4, 20), (5, 0)] := by decide
 -- all hypotheses of `flat_search_exact` are met by this instance:
 example : ∃ res, searchSingle toy (run toy (init 1) toyOps) 20 2 0 [] = .ok res ∧
     IsTopK toy.sc.le 2 (cands toy (live toy 1 toyOps) 20 0 []) res :=
-  flat_search_exact toy toy_ordered 1 toyOps (by simp [FreshAdds, toyOps, addedIds])
-    20 20 2 0 [] rfl rfl
+  flat_search_exact toy toy_ordered 1 toyOps 20 20 2 0 [] rfl rfl
 -- candidates: tie at distance 10 (ids 1 and 3); id 2 was removed
 example : cands toy (live toy 1 toyOps) 20 0 [] = [⟨1, 10⟩, ⟨3, 10⟩, ⟨4, 0⟩, ⟨5, 20⟩] := by decide
 -- both tie-breaks at the 2nd place are accepted by the spec, a non-nearest answer is not
